@@ -283,6 +283,10 @@ pub struct ColdCase {
     /// read for the given number of milliseconds; it must still get the whole answer and then end-of-stream
     #[serde(default)]
     pub stalled_answers: Vec<(Hs, u32, u32)>,
+    /// full-duplex bulk flows (upload bytes, answer bytes): the application writes everything before it reads anything
+    /// while the target streams its answer from the start
+    #[serde(default)]
+    pub duplex: Vec<(Hs, u32, u32)>,
 }
 
 pub struct ColdUpload;
@@ -299,7 +303,8 @@ fn cold_once(c: &ColdCase) -> (Option<FlowFail>, Vec<String>) {
         let hs: Vec<_> = c.uploads.iter().enumerate().map(|(i, (h, n, d))| sc.spawn(move || crate::sys::flow::cold_upload(port, *h, *n, 3000 + i as u64, *d))).collect();
         let hb: Vec<_> = c.busy_answers.iter().enumerate().map(|(i, (h, n))| sc.spawn(move || crate::sys::flow::answer_during_upload(port, *h, *n, 4000 + i as u64))).collect();
         let hl: Vec<_> = c.stalled_answers.iter().enumerate().map(|(i, (h, n, ms))| sc.spawn(move || crate::sys::flow::stalled_answer(port, *h, *n, 5000 + i as u64, *ms))).collect();
-        for h in hs.into_iter().chain(hb).chain(hl) {
+        let hd: Vec<_> = c.duplex.iter().enumerate().map(|(i, (h, u, d))| sc.spawn(move || crate::sys::flow::duplex_bulk(port, *h, *u, *d, 6000 + i as u64))).collect();
+        for h in hs.into_iter().chain(hb).chain(hl).chain(hd) {
             if let Ok(Err(f)) = h.join() {
                 fails.push(f);
             }
@@ -307,6 +312,9 @@ fn cold_once(c: &ColdCase) -> (Option<FlowFail>, Vec<String>) {
     });
     if !c.stalled_answers.is_empty() {
         labels.push("answer-waits-for-a-late-reader".into());
+    }
+    if !c.duplex.is_empty() {
+        labels.push("full-duplex-bulk-write-before-read".into());
     }
     if !c.busy_answers.is_empty() {
         labels.push("answer-during-upload".into());
@@ -322,7 +330,7 @@ fn cold_once(c: &ColdCase) -> (Option<FlowFail>, Vec<String>) {
         fail = Some(FlowFail { soft: false, sig: "process-or-task-died".into(), msg: h });
     }
     if let Some(f) = &mut fail {
-        f.msg = format!("{} [{}; uploads={:?}; answers during upload={:?}; answers for a late reader={:?}]\n{}", f.msg, c.spec.short(), c.uploads, c.busy_answers, c.stalled_answers, crate::ev::truncate(&cl.logs(8), 1500));
+        f.msg = format!("{} [{}; uploads={:?}; answers during upload={:?}; answers for a late reader={:?}; duplex={:?}]\n{}", f.msg, c.spec.short(), c.uploads, c.busy_answers, c.stalled_answers, c.duplex, crate::ev::truncate(&cl.logs(8), 1500));
     }
     (fail, labels)
 }
@@ -337,7 +345,7 @@ impl SubCheck for ColdUpload {
         let size = prop_oneof![2 => 1u32..70_000, 3 => 70_000u32..=max, 1 => Just(1_048_576u32)];
         let up = (hs_strategy(), size, prop_oneof![3 => Just(0u16), 2 => 1u16..400, 1 => 800u16..1600]);
         let busy = (hs_strategy(), prop_oneof![1 => 1u32..70_000, 2 => 70_000u32..=max]);
-        (spec_strategy(None), proptest::collection::vec(up, 0..=6), proptest::collection::vec(busy, 0..=3)).prop_map(|(spec, uploads, busy_answers)| ColdCase { spec, uploads, busy_answers, stalled_answers: vec![] }).boxed()
+        (spec_strategy(None), proptest::collection::vec(up, 0..=6), proptest::collection::vec(busy, 0..=3)).prop_map(|(spec, uploads, busy_answers)| ColdCase { spec, uploads, busy_answers, stalled_answers: vec![], duplex: vec![] }).boxed()
     }
     fn exec(&self, c: &ColdCase) -> Outcome {
         let (mut fail, mut labels) = cold_once(c);
@@ -357,11 +365,13 @@ impl SubCheck for ColdUpload {
             }
         }
         let mut out = Outcome::new();
-        out.weight = (c.uploads.len() + c.busy_answers.len() + c.stalled_answers.len()).max(1) as u64;
+        out.weight = (c.uploads.len() + c.busy_answers.len() + c.stalled_answers.len() + c.duplex.len()).max(1) as u64;
         for l in labels {
             out.label(l);
         }
-        if !c.stalled_answers.is_empty() {
+        if !c.duplex.is_empty() {
+            out.nontrivial(format!("{}|duplex|{:?}", c.spec.short(), c.duplex.iter().map(|(h, u, d)| (h.name(), u >> 20, d >> 20)).collect::<Vec<_>>()));
+        } else if !c.stalled_answers.is_empty() {
             out.nontrivial(format!("{}|late-reader|{:?}", c.spec.short(), c.stalled_answers.iter().map(|(h, n, ms)| (h.name(), crate::gen::size_class(*n as usize), ms / 1000)).collect::<Vec<_>>()));
         } else if c.uploads.iter().any(|(_, n, _)| *n > 65536) || c.busy_answers.iter().any(|(_, n)| *n > 65536) {
             out.nontrivial(format!("{}|{:?}", c.spec.short(), c.uploads.iter().map(|(h, n, d)| (h.name(), crate::gen::size_class(*n as usize), *d > 0)).collect::<Vec<_>>()));
@@ -442,8 +452,23 @@ pub fn run(ctx: &mut PropCtx) {
         spec.seed = ctx.seed.wrapping_mul(977) + i as u64;
         spec.workers = 2 + (i % 5) as u8;
         let h = |k: u64| Hs::ALL[((i as u64 + k + ctx.seed) % 4) as usize];
-        late.push(ColdCase { spec, uploads: vec![], busy_answers: vec![], stalled_answers: vec![(h(0), 40_000 + (i as u32 * 997) % 60_000, 14_500), (h(1), 9_000 + (i as u32 * 131) % 20_000, 13_500), (h(2), 300_000, 3_000)] });
+        late.push(ColdCase { spec, uploads: vec![], busy_answers: vec![], duplex: vec![], stalled_answers: vec![(h(0), 40_000 + (i as u32 * 997) % 60_000, 14_500), (h(1), 9_000 + (i as u32 * 131) % 20_000, 13_500), (h(2), 300_000, 3_000)] });
     }
     rt::run_list(ctx, &ColdUpload, "late-reader", late);
+    // full duplex in bulk, write-before-read: one combination per transport in the quick tier, all of them in thorough
+    let mut duplex = vec![];
+    for (i, combo) in combos.iter().enumerate() {
+        let pick = ctx.tier == Tier::Thorough || (i as u64 + 3) % 11 == ctx.seed % 11;
+        if !pick {
+            continue;
+        }
+        let mut spec = Spec::new(combo.0, combo.1);
+        spec.seed = ctx.seed.wrapping_mul(613) + i as u64;
+        spec.workers = 2 + (i % 4) as u8;
+        let h = Hs::ALL[((i as u64 + 2 + ctx.seed) % 4) as usize];
+        let mib = 1u32 << 20;
+        duplex.push(ColdCase { spec, uploads: vec![], busy_answers: vec![], stalled_answers: vec![], duplex: vec![(h, 14 * mib + (i as u32 * 7919) % mib, 9 * mib + (i as u32 * 104729) % mib)] });
+    }
+    rt::run_list(ctx, &ColdUpload, "duplex-bulk", duplex);
     rt::run_sub(ctx, &ColdUpload, ctx.tier.pick(60, 1000));
 }
